@@ -121,7 +121,7 @@ private def pacts : List (Pair.Side × Pair.Act) :=
    (.A, .shutdown 0), (.A, .xmit), (.B, .recv), (.B, .read 0 9)]
 example : Pair.Cfg pcfg pcfg [7, 8] [9, 10] := ⟨by decide, by decide, by decide, by decide⟩
 example : Pair.Established (Pair.run (Pair.init pcfg pcfg [7, 8] [9, 10]) pacts) 7 0 0 :=
-  ⟨by decide, by decide, by decide, by decide⟩
+  ⟨by decide, by decide, by decide, by decide, by decide⟩
 example : (Pair.run (Pair.init pcfg pcfg [7, 8] [9, 10]) pacts).gb.rlog 0 = [1, 2, 3] := by decide
 
 /-! Non-vacuity -/
